@@ -1199,6 +1199,8 @@ class CircuitTemplate(AbstractBaseTemplate):
 
                 # get all requested node variables
                 target_nodes = self.get_nodes(out_nodes, var_identifier=(out_op, out_var))
+                if not target_nodes:
+                    raise PyRatesException(f'The requested variable `{out}` does not exist in this network.')
 
                 if len(target_nodes) == 1:
 
@@ -1224,6 +1226,8 @@ class CircuitTemplate(AbstractBaseTemplate):
             # the vectorized backend label first would address the first node of the merged group instead)
             *out_nodes, out_op, out_var = outputs.split('/')
             target_nodes = self.get_nodes(out_nodes, var_identifier=(out_op, out_var))
+            if not target_nodes:
+                raise PyRatesException(f'The requested variable `{outputs}` does not exist in this network.')
 
             # extract index for single output node
             for t in target_nodes:
